@@ -147,6 +147,11 @@ func (s *Service) handleConnection(ctx context.Context, conn net.Conn, wg *sync.
 
 func (s *Service) teardown() {
 	s.mutex.Lock()
+	if s.listener != nil {
+		// Release the endpoint on every exit of the serving call (idle
+		// timeout, accept error), not only after Shutdown().
+		s.listener.Close()
+	}
 	s.listener = nil
 	s.running = false
 	s.protocol = ""
